@@ -434,6 +434,15 @@ def call(pe, name, args, kwargs, node):
     if isinstance(v, Mock) and "obj" in v.attrs:
       return call(pe, "copy.deepcopy", [v.attrs["obj"]], {}, node)
     pe.err("json.loads of a non-constant string", node)
+  if name in ("re.findall", "re.split"):
+    import re as _re
+    if isinstance(args[0], str) and isinstance(args[1], str):
+      try:
+        return [tuple(m) if isinstance(m, tuple) else m for m in
+                getattr(_re, name.split(".")[1])(args[0], args[1])]
+      except _re.error:
+        raise PyRaise("error", "bad regular expression %r" % args[0])
+    pe.err("%s on non-constant strings" % name, node)
   if name == "re.sub":
     import re as _re
     pat, rep_, text = args[0], args[1], args[2]
@@ -661,11 +670,25 @@ def call(pe, name, args, kwargs, node):
     nd = NDArr(args[0])
     if all(is_num(e) for e in nd.flat()):
       return nd
+  if name in ("np.reshape", "tf.reshape", "K.reshape") and args and is_num(
+      args[0]) and not isinstance(args[0], bool):
+    shp = arg(args, kwargs, 1, "newshape", kwargs.get("shape"))
+    if isinstance(shp, (list, tuple)) and [int(fr(d)) for d in shp] in (
+        [-1], [1]):
+      return NArr([args[0]])
   if name in ("np.reshape", "tf.reshape") and args and isinstance(
       args[0], (NDArr, NArr)):
     shp = arg(args, kwargs, 1, "newshape", kwargs.get("shape"))
     flat = args[0].flat() if isinstance(args[0], NDArr) else list(args[0])
-    return NDArr.from_flat(flat, [int(fr(d)) for d in shp])
+    dims = [int(fr(d)) for d in shp]
+    if dims.count(-1) == 1:
+      rest = 1
+      for d in dims:
+        if d != -1:
+          rest *= d
+      if rest and len(flat) % rest == 0:
+        dims[dims.index(-1)] = len(flat) // rest
+    return NDArr.from_flat(flat, dims)
   if name in ("np.ravel", "np.ndarray.flatten") and args and isinstance(
       args[0], (NDArr, NArr, list, tuple)):
     v = args[0]
@@ -681,6 +704,12 @@ def call(pe, name, args, kwargs, node):
       return args[0] if len(args[0]) != 1 else args[0][0]
     shp = [d for d in args[0].shape if d != 1]
     return NDArr.from_flat(args[0].flat(), shp)
+  if name in ("np.squeeze", "tf.squeeze") and args and is_num(
+      args[0]) and not isinstance(args[0], bool):
+    return args[0]
+  if name in ("np.squeeze", "tf.squeeze") and args and isinstance(
+      args[0], Tensor) and not kwargs and len(args) == 1:
+    return Tensor(args[0].term, None)     # values kept, layout unknown
   if name in ("np.asarray", "np.array") and args and isinstance(
       args[0], (list, range, tuple)) and not isinstance(args[0], NArr) and \
       all(is_num(e) and not isinstance(e, bool) for e in args[0]) and \
